@@ -269,7 +269,7 @@ def main(argv):
     for line in known_lines:
         print(line)
     if violations:
-        for rp, found in violations:
+        for rp, found in sorted(violations, key=lambda v: not v[1]):  # those with a failing input first
             print(f"VIOLATION property={pid} replay={rp}" + ("" if found else " no-failing-input-found"))
         return 1
     print(f"OK property={pid} tier={tier} obligations={len(obligations)} wall={ev['wall_s']}s")
